@@ -8,11 +8,11 @@ let opt_time (s : string) : z option = if s = "none" then None else Some (zadd t
 let zopt = function None -> "-" | Some v -> string_of_z v
 let show_cc (c : cc) : string =
   let b x = if x then "1" else "0" in
-  Printf.sprintf "pub=%s priv=%s nc=%s ns=%s nt=%s mr=%s pr=%s oic=%s imm=%s ma=%s sma=%s ms=%s mf=%s sie=%s pp=%s ncp=%s%s"
+  Printf.sprintf "pub=%s priv=%s nc=%s ns=%s nt=%s mr=%s pr=%s oic=%s imm=%s ma=%s sma=%s ms=%s mf=%s sie=%s pp=%s ncp=%s ncwo=%s%s"
     (b c.m_public) (b c.m_private) (b c.m_no_cache) (b c.m_no_store) (b c.m_no_transform) (b c.m_must_revalidate)
     (b c.m_proxy_revalidate) (b c.m_only_if_cached) (b c.m_immutable) (zopt c.v_max_age) (zopt c.v_s_maxage)
-    (zopt c.v_max_stale) (zopt c.v_min_fresh) (zopt c.v_stale_if_error) (b c.private_has_params) (b c.no_cache_has_params)
-    (if c.fuel_out then " FUEL" else "")
+    (zopt c.v_max_stale) (zopt c.v_min_fresh) (zopt c.v_stale_if_error) (b c.private_has_params) (b (c.m_no_cache && c.no_cache_has_params))
+    (b (c.m_no_cache && not c.no_cache_has_params)) (if c.fuel_out then " FUEL" else "")
 let outcome_s = function
   | NotForwarded -> "none" | Hit -> "none" | Refused -> "none" | Revalidate -> "cond" | Miss -> "plain"
 
